@@ -679,11 +679,15 @@ def check_mesh_of_length(part, k, patt, limit=None):
     nothing else.  Streaming (the k = 3 list has 393 216 members)."""
     Perm, MeshPatt = _P(), _M()
     case = {"k": k, "patt": patt}
+    if limit is not None:
+        case["limit"] = limit            # only the first `limit` items (big grids)
     perms = [tuple(patt)] if patt is not None else list(RC.lex_perms(k))
     total = 1 << ((k + 1) ** 2)
     cnt = 0
     try:
         it = MeshPatt.of_length(k) if patt is None else MeshPatt.of_length(k, Perm(patt))
+        if limit is not None:
+            it = itertools.islice(it, limit)
         for i, m in enumerate(it):
             pi, r = divmod(i, total)
             if pi >= len(perms):
@@ -711,8 +715,9 @@ def check_mesh_of_length(part, k, patt, limit=None):
     except Exception as exc:  # noqa
         part.violation("mesh_of_length", case, {"exception": repr(exc), "after": cnt})
         return cnt
-    if cnt != total * len(perms):
-        part.violation("mesh_of_length", case, {"count": cnt, "expected": total * len(perms)})
+    expected = total * len(perms) if limit is None else min(limit, total * len(perms))
+    if cnt != expected:
+        part.violation("mesh_of_length", case, {"count": cnt, "expected": expected})
     return cnt
 
 
@@ -730,6 +735,41 @@ def sparse_numbers(k, low):
     for i in range(nbits + 1):
         nums.add((1 << i) - 1)
     return sorted(nums)
+
+
+def big_family(k):
+    """Structured ranks for grids too big to enumerate (k >= 4), sorted.  With N = (k+1)^2 bits:
+    every number with at most 2 bits set, with at most 2 bits clear; 2^i - 1 and 2^i; every full
+    row and full column of cells and their complements; every number whose set bits lie inside
+    one aligned window of 8 bits (bits 8w..8w+7), and its complement.  Sparse and dense, low
+    and high: whatever chunk size a decoder works in, some member has an empty (or full) chunk
+    below a non-empty one."""
+    nbits = (k + 1) ** 2
+    full = (1 << nbits) - 1
+    nums = set()
+    for c in range(0, 3):
+        for bits in itertools.combinations(range(nbits), c):
+            v = sum(1 << b for b in bits)
+            nums.add(v)
+            nums.add(full ^ v)
+    for i in range(nbits + 1):
+        nums.add((1 << i) - 1)
+    for line in range(k + 1):
+        col = sum(1 << RC.cell_bit(k, line, y) for y in range(k + 1))
+        row = sum(1 << RC.cell_bit(k, x, line) for x in range(k + 1))
+        nums.update((col, row, full ^ col, full ^ row))
+    for w in range(0, nbits, 8):
+        for val in range(1, 256):
+            v = val << w
+            if v <= full:
+                nums.add(v)
+                nums.add(full ^ v)
+    return sorted(nums)
+
+
+def big_patterns(k):
+    """The identity and one non-involution (the layout does not depend on the pattern)."""
+    return [tuple(range(k)), tuple(range(1, k)) + (0,)]
 
 
 def shard_mesh(shard):
@@ -765,6 +805,26 @@ def shard_mesh(shard):
             bij, lay = mesh_case(Perm, MeshPatt, perm, r, seen)
             report_mesh(part, perm, r, bij, lay)
         part.add(len(nums), len(nums) - 1)
+    elif kind == "big":
+        _, perm = shard
+        k = len(perm)
+        nums = big_family(k)
+        seen = set()
+        for r in nums:
+            bij, lay = mesh_case(Perm, MeshPatt, perm, r, seen)
+            report_mesh(part, perm, r, bij, lay)
+        if len(seen) != len(nums):
+            part.violation("mesh_bij", {"perm": perm, "r": None},
+                           {"distinct_shadings": len(seen), "expected": len(nums)})
+        part.add(len(nums), len(nums) - 1)
+        total = 1 << ((k + 1) ** 2)
+        for r in (-2, -1, total, total + 1, 2 * total):
+            check_mesh_reject(part, perm, r)
+            part.add(1, 1)
+        cnt = check_mesh_of_length(part, k, perm, limit=4096)
+        part.add(1, 1)
+        part.bump("mesh_of_length_items", cnt)
+        part.bump("mesh_big_grid_ranks", len(nums))
     elif kind == "of_length":
         _, k = shard
         cnt = check_mesh_of_length(part, k, None)
@@ -1503,6 +1563,8 @@ def run(ctx, only=None):
         shards += [("sparse+of_length" if quick else "all", p) for p in RC.lex_perms(3)]
         if not quick:
             shards += [("sparse", p) for p in RC.lex_perms(4)]
+        bigk = (4, 5, 6) if quick else (4, 5, 6, 7, 8)
+        shards += [("big", p) for k in bigk for p in big_patterns(k)]
         ctx.pmap(shard_mesh, shards)
         ctx.bounds["mesh"] = (
             "every pattern of length k <= 3: of_length(k, patt) item by item (all 2^((k+1)^2) "
@@ -1514,6 +1576,14 @@ def run(ctx, only=None):
                2 if quick else 3,
                "" if quick else "; k = 4: every number with <= 2 bits set or clear and 2^i - 1, "
                "all 24 patterns"))
+        ctx.bounds["mesh_big_grids"] = (
+            "k = %s, patterns identity and 1..k-1,0: every rank with <= 2 bits set or <= 2 bits "
+            "clear, 2^i - 1, 2^i, every full row / column of cells and complements, every rank "
+            "whose set bits lie in one aligned window of 8 bits and its complement (%s ranks per "
+            "pattern): unrank against the reference layout, rank(unrank(r)), rank of the "
+            "independently built pattern, unrank(rank), injectivity inside the family; rejection "
+            "of -2, -1, 2^N, 2^N+1, 2^(N+1); first 4096 items of of_length(k, patt)"
+            % (list(bigk), [len(big_family(k)) for k in bigk]))
         ctx.section("mesh", evaluations=ctx.evals - e0)
     if want("history"):
         e0 = ctx.evals
@@ -1654,24 +1724,27 @@ def replay_once(part, rec):
         if case["r"] is None:
             k = len(perm)
             seen = set()
-            for r in (range(1 << ((k + 1) ** 2)) if k <= 2 else sparse_numbers(k, 4096)):
+            fam = (range(1 << ((k + 1) ** 2)) if k <= 2 else
+                   sparse_numbers(k, 4096) if k == 3 else big_family(k))
+            for r in fam:
                 try:
                     seen.add(frozenset(MeshPatt.unrank(Perm(perm), r).shading))
                 except Exception:  # noqa
                     pass
-            if len(seen) != (1 << ((k + 1) ** 2) if k <= 2 else len(sparse_numbers(k, 4096))):
+            if len(seen) != len(fam):
                 part.violation("mesh_bij", case, {"distinct_shadings": len(seen)})
         else:
             bij, lay = mesh_case(Perm, MeshPatt, perm, case["r"])
             tmp = Partial()
-            check_mesh_of_length(tmp, len(perm), perm)
+            check_mesh_of_length(tmp, len(perm), perm, limit=None if len(perm) <= 3 else 4096)
             extra = [v for v in tmp.viols if v["sub"] == sub]
             if sub == "mesh_bij" and bij:
                 part.violation(sub, case, bij)
             elif sub == "mesh_layout" and (lay or extra):
                 part.violation(sub, case, lay or extra[0]["detail"])
     elif sub == "mesh_of_length":
-        check_mesh_of_length(part, case["k"], None if case["patt"] is None else tuple(case["patt"]))
+        check_mesh_of_length(part, case["k"], None if case["patt"] is None else tuple(case["patt"]),
+                             limit=case.get("limit"))
     elif sub == "mesh_reject":
         check_mesh_reject(part, tuple(case["perm"]), case["r"])
     elif sub in ("history_std", "history_rank", "fresh"):
